@@ -122,11 +122,11 @@ impl Builder {
             let n = self.fresh("c");
             match s {
                 Step::Map(f) => {
-                    cur = self.prog.add(&n, "map", &format!("map(|x: It| dx_shape::rt::mapf({f}, x))"), vec![(cur, None)], 0, "It");
+                    cur = self.prog.add(&n, "map", &format!("map(|x: It| dxs_rt::mapf({f}, x))"), vec![(cur, None)], 0, "It");
                     last_is_hoff = false;
                 }
                 Step::Filter(f) => {
-                    cur = self.prog.add(&n, "filter", &format!("filter(|x: &It| dx_shape::rt::predf({f}, x))"), vec![(cur, None)], 0, "It");
+                    cur = self.prog.add(&n, "filter", &format!("filter(|x: &It| dxs_rt::predf({f}, x))"), vec![(cur, None)], 0, "It");
                     last_is_hoff = false;
                 }
                 Step::Hop(h) => {
@@ -172,7 +172,7 @@ fn ref_expr(st: &State, r: &RefUse, idx: usize) -> (String, String, String) {
         StateKind::Handoff => "v_buf",
     };
     match r.mutf {
-        None => (format!("let w{idx} = dx_shape::rt::{snap}(#{g}{name});"), format!("w{idx}"), String::new()),
+        None => (format!("let w{idx} = dxs_rt::{snap}(#{g}{name});"), format!("w{idx}"), String::new()),
         Some(f) => {
             let m = match st.kind {
                 StateKind::Singleton(..) => "mut_one",
@@ -180,9 +180,9 @@ fn ref_expr(st: &State, r: &RefUse, idx: usize) -> (String, String, String) {
                 StateKind::Handoff => "mut_many",
             };
             (
-                format!("let m{idx} = #{g}mut {name}; let w{idx} = dx_shape::rt::{snap}(&*m{idx});"),
+                format!("let m{idx} = #{g}mut {name}; let w{idx} = dxs_rt::{snap}(&*m{idx});"),
                 format!("w{idx}"),
-                format!("dx_shape::rt::{m}({f}, m{idx}, x);"),
+                format!("dxs_rt::{m}({f}, m{idx}, x);"),
             )
         }
     }
@@ -251,7 +251,7 @@ pub fn build(p: &mut P25) -> Prog {
                 cur = b.prog.add(
                     &format!("a{j}"),
                     &format!("fold{p}"),
-                    &format!("fold::<{p}>(|| (0i64, 0i64), |a: &mut It, x: It| dx_shape::rt::acc_comm({f}, a, x))"),
+                    &format!("fold::<{p}>(|| (0i64, 0i64), |a: &mut It, x: It| dxs_rt::acc_comm({f}, a, x))"),
                     vec![(cur, None)],
                     0,
                     "It",
@@ -263,7 +263,7 @@ pub fn build(p: &mut P25) -> Prog {
                 cur = b.prog.add(
                     &format!("a{j}"),
                     &format!("reduce{p}"),
-                    &format!("reduce::<{p}>(|a: &mut It, x: It| dx_shape::rt::red_comm({f}, a, x))"),
+                    &format!("reduce::<{p}>(|a: &mut It, x: It| dxs_rt::red_comm({f}, a, x))"),
                     vec![(cur, None)],
                     0,
                     "It",
@@ -341,14 +341,14 @@ pub fn gen_prog(idx: usize, rng: &mut Rng, rejects: &mut Vec<String>, fns: &mut 
                 // a reader holding a mutable reference elsewhere stays shared here (at most one `#mut` per closure)
                 let already_mut = uses[r].iter().any(|u: &RefUse| u.mutf.is_some());
                 let mutable = !already_mut && rng.chance(1, 3);
-                if k > 0 && (mutable || prev_mut || rng.chance(1, 2)) {
+                if k > 0 && (mutable || prev_mut || rng.chance(2, 5)) {
                     g += 1 + rng.below(3) as u32;
                 }
                 assigned.push((r, g, mutable));
                 prev_mut = mutable;
             }
             let n_groups = assigned.iter().map(|a| a.1).collect::<std::collections::BTreeSet<_>>().len();
-            let implicit = n_groups == 1 && rng.chance(1, 2);
+            let implicit = n_groups == 1 && rng.chance(3, 4);
             for (r, g, m) in assigned {
                 uses[r].push(RefUse { state: j, group: if implicit { None } else { Some(g) }, mutf: if m { Some(rng.below(3) as u8) } else { None } });
             }
